@@ -4,6 +4,7 @@ from ..rules import chart_rules as C
 from ..rules import cache_rules as CA
 from ..rules import shape_rules as SH
 from ..rules import sibling_rules as SI
+from ..rules import proj_rules as PR
 from ..rules.common import u1, n1
 
 ENTRIES = [
@@ -28,6 +29,7 @@ def run(ctx):
     ctx.do(SH.rule_sh2, only={"kleinian_to_poincare", "poincare_to_kleinian", "poincare_to_halfspace", "halfspace_to_poincare", "hyperboloid_coords", "apply_bilinear", "normsq", "normalize"})
     ctx.do(SI.rule_pt1, [SI.HYP], scope=ctx.scope(ENTRIES))
     ctx.do(SH.rule_sh5, only={"Point.coords", "Point.distance"})
+    ctx.do(PR.rule_fr1, setter=False)
     ctx.do(u1, ENTRIES, min_functions=15)
     ctx.r.assume("round-trip equality, agreement of the closed-form metrics, "
                  "symmetry and the triangle inequality are numerical and not "
